@@ -1,3 +1,4 @@
+mod cli;
 mod evidence;
 mod ledger;
 mod model;
@@ -41,7 +42,10 @@ fn main() {
         "C01" => props::c01::run(&mut ctx),
         "C02" => props::c02::run(&mut ctx),
         "C04" => props::c04::run(&mut ctx),
+        "C05" => props::c05::run(&mut ctx),
+        "C06" => props::c06::run(&mut ctx),
         "C07" => props::c07::run(&mut ctx),
+        "C09" => props::c09::run(&mut ctx),
         x => { eprintln!("no harness for {x}"); std::process::exit(2); }
     }
     let mut j = ctx.ev.to_json();
